@@ -71,8 +71,13 @@ func dial(cf base.ClientFactory, args *pt.Args, w *wire.Conn) (net.Conn, error) 
 			sharedParsed[cf] = pa
 		}
 	}
-	return cf.Dial("tcp", "192.0.2.7:443", func(string, string) (net.Conn, error) { return w, nil }, pa)
+	return cf.Dial("tcp", dialAddr, func(string, string) (net.Conn, error) { return w, nil }, pa)
 }
+
+// dialAddr is the bridge address of the next dial (the ticket store is keyed by it).
+var dialAddr = defaultDialAddr
+
+const defaultDialAddr = "192.0.2.7:443"
 
 func hour() int64 { return sched.Cur().Now().Unix() / 3600 }
 
@@ -113,6 +118,12 @@ func total(xs []int) int {
 func sessionBody(so sessOpts, refRnd *rnd.Stream, r *sessResult) {
 	s := sched.Cur()
 	cw, sw := wire.Pipe("client", "server")
+	if dialAddr != defaultDialAddr {
+		// (the ticket store is keyed by the address of the connection the dial function returns)
+		if ta, err := net.ResolveTCPAddr("tcp", dialAddr); err == nil {
+			cw.Remote = ta
+		}
+	}
 	cw.Chunker = so.chunker
 	wantC := o4h.Pattern('S', 0, len(so.so.Data)+total(so.serverW))
 	wantS := o4h.Pattern('C', 0, total(so.clientW))
@@ -846,6 +857,13 @@ func scenarios(cfg *mc.Config, emit func(mc.Scenario)) {
 	}
 	for d := 1; d <= depth; d++ {
 		emit(historyScenario(d, seed, false))
+		if d == 1 {
+			for _, order := range []string{"AB", "BA"} {
+				for _, restart := range []bool{false, true} {
+					emit(twoBridges(seed, order, restart))
+				}
+			}
+		}
 		if d >= 2 && (thorough || d <= 3) {
 			emit(historyScenario(d, seed, true))
 		}
@@ -1021,6 +1039,96 @@ func historyScenario(depth int, seed int64, shareArgs bool) mc.Scenario {
 			fail(c, "liveness", "history/stuck/"+hist[len(hist)-1], "history %v: the last step never returned (blocked: %+v)", hist, res.Blocked)
 		}
 		c.Observe("history", fmt.Sprint(hist, used))
+	}}
+}
+
+// twoBridges: a client that uses two bridges (own address, own shared secret,
+// own ticket table) holds a ticket of each; across a restart each bridge is
+// presented its own ticket (or none), never the other bridge's.
+func twoBridges(seed int64, order string, restart bool) mc.Scenario {
+	name := "two-bridges/" + order
+	if restart {
+		name += "/restart"
+	}
+	return mc.Scenario{Name: name, Weight: 50, Run: func(c *mc.Ctx) {
+		defer func() { dialAddr = defaultDialAddr }()
+		dir := freshDir("two")
+		rnd.Install(rnd.New(seed, "c15-real-two"))
+		refRnd := rnd.New(seed, "c15-ref-two")
+		cf, err := factory(dir)
+		if err != nil {
+			fail(c, "startup", "startup/factory", "ClientFactory on an empty directory: %v", err)
+			return
+		}
+		type bridge struct {
+			addr     string
+			kB       []byte
+			tickets  map[string][]byte
+			issuedAt map[string]int64
+			holds    string
+		}
+		bs := map[byte]*bridge{
+			'A': {addr: "192.0.2.77:443", kB: kB, tickets: map[string][]byte{}, issuedAt: map[string]int64{}},
+			'B': {addr: "198.51.100.9:9001", kB: bytes.Repeat([]byte{0x37}, 20), tickets: map[string][]byte{}, issuedAt: map[string]int64{}},
+		}
+		var sum []string
+		nIssued := 0
+		res := sched.Run(c, sched.Options{NoPreempt: true, NoEarlyTimers: true, Start: start, MaxSteps: 5_000_000}, func() {
+			s := sched.Cur()
+			connect := func(id byte, phase string) bool {
+				b := bs[id]
+				dialAddr = b.addr
+				nIssued++
+				newT := rnd.New(seed, fmt.Sprint("c15-two-ticket-", nIssued)).Bytes(144)
+				so := sessOpts{so: ref.SSServerOpts{KB: b.kB, PadLen: 7, Seed: bytes.Repeat([]byte{9}, 32), Tickets: b.tickets, IssuedAt: b.issuedAt, Issue: newT, Separate: true}, cf: cf, secret: b.kB, clientW: []int{10}, serverW: []int{5}}
+				var r sessResult
+				sessionBody(so, refRnd, &r)
+				what := fmt.Sprintf("%s connection to bridge %c (order %s, restart=%v)", phase, id, order, restart)
+				if !mustWork(c, r, so, what, "two-bridges") {
+					return false
+				}
+				sum = append(sum, fmt.Sprintf("%c:%s", id, r.rs.Kind))
+				if r.rs.Kind == "ticket" && r.rs.Ticket != b.holds {
+					fail(c, "tickets", "two-bridges/foreign-ticket", "%s: the client presented a ticket this bridge did not issue to it last", what)
+					return false
+				}
+				if r.rs.Kind != "ticket" && b.holds != "" && !restart {
+					fail(c, "ticket-use", "two-bridges/ticket-not-used", "%s: the client holds a fresh ticket of this bridge but performed a UniformDH handshake", what)
+					return false
+				}
+				now := s.Now().Unix()
+				b.tickets[string(newT[32:])] = newT[:32]
+				b.issuedAt[string(newT[32:])] = now
+				b.holds = string(newT[32:])
+				return true
+			}
+			for _, id := range []byte(order) {
+				if !connect(id, "first") {
+					return
+				}
+			}
+			if restart {
+				if cf, err = factory(dir); err != nil {
+					fail(c, "startup", "startup/restart", "two bridges: ClientFactory failed: %v", err)
+					return
+				}
+			}
+			s.Advance(time.Hour)
+			for _, id := range []byte(order) {
+				if !connect(id, "later") {
+					return
+				}
+			}
+			for i := len(order) - 1; i >= 0; i-- {
+				if !connect(order[i], "last") {
+					return
+				}
+			}
+		})
+		if len(res.Panics) > 0 {
+			fail(c, "no-panic", "panic/two-bridges", "%s", res.Panics[0])
+		}
+		c.Observe("two", fmt.Sprint(sum))
 	}}
 }
 
